@@ -2,6 +2,7 @@ import CfbVerif.Phys.Api
 import CfbVerif.Drv.Api
 import CfbVerif.Spec.Check
 import CfbVerif.Phys.Load
+import CfbVerif.Phys.OpenBack
 /-! `driver phys`: API histories on the two-level model; prints result, image hash and caches. -/
 namespace CfbVerif.Drv.Phys
 open CfbVerif.Phys CfbVerif.Dir CfbVerif.Drv CfbVerif.Drv.Api
@@ -18,6 +19,8 @@ def tail (ps : PState) (status : PhysStatus) : String :=
   | .fine =>
     let img := ps.image
     let p := ps.p
+    -- the hypothesis `MiniFit` of `C02_reopens`, evaluated on every state the replay reaches
+    if !miniFitB p then "PHYSFAIL the model state violates MiniFit (MiniFAT not trimmed / beyond its chain / beyond the mini stream)" else
     s!"P {img.size} {fnv64 img} | C {p.numSectors} {p.fat.size} {showList p.free} {p.miniFat.size} {showList p.freeMini} {p.dirLen} {p.miniFatStart} {p.rootStart} {p.rootLen}"
 
 def stepLine (st : St) (line : String) : IO (St × String) := do
